@@ -46,22 +46,16 @@ pub struct PlanOpts {
     /// bound-2 coupled pairs: 0 none, 1 local (|p-q| <= 8, directory record x table head), 2 wide (all pairs when the seed
     /// is < 600 bytes, else |p-q| <= 32 and directory record x first 32 bytes of the table)
     pub pairs: u8,
+    /// only positions inside GSUB, GPOS, GDEF, kern and morx (C02's corrupt-layout sweep)
+    pub layout_only: bool,
 }
 
 impl PlanOpts {
     pub fn full() -> Self {
-        PlanOpts { head_bytes: 0, byte_faults: true, u16_faults: true, u32_faults: true, truncations: true, structure: true, pairs: 0 }
+        PlanOpts { head_bytes: 0, byte_faults: true, u16_faults: true, u32_faults: true, truncations: true, structure: true, pairs: 0, layout_only: false }
     }
     pub fn heads(n: usize) -> Self {
         PlanOpts { head_bytes: n, ..Self::full() }
-    }
-    pub fn encode(&self) -> String {
-        format!("{}:{}{}{}{}{}{}", self.head_bytes, self.byte_faults as u8, self.u16_faults as u8, self.u32_faults as u8, self.truncations as u8, self.structure as u8, self.pairs)
-    }
-    pub fn decode(s: &str) -> Option<Self> {
-        let (a, b) = s.split_once(':')?;
-        let f: Vec<bool> = b.bytes().map(|c| c == b'1').collect();
-        Some(PlanOpts { head_bytes: a.parse().ok()?, byte_faults: f[0], u16_faults: f[1], u32_faults: f[2], truncations: f[3], structure: f[4], pairs: b.as_bytes()[5] - b'0' })
     }
 }
 
@@ -76,6 +70,20 @@ fn u32_at(b: &[u8], o: usize) -> u32 {
 
 /// positions eligible for value faults
 fn positions(seed: &[u8], opts: &PlanOpts) -> Vec<usize> {
+    if opts.layout_only {
+        let mut v = Vec::new();
+        if let Some(f) = sfnt::parse(seed) {
+            for e in &f.dir {
+                if [b"GSUB", b"GPOS", b"GDEF", b"kern", b"morx"].iter().any(|t| otmodel::tag(t) == e.tag) {
+                    let s = e.offset as usize;
+                    let end = s.saturating_add(e.length as usize).min(seed.len());
+                    let end = if opts.head_bytes > 0 { end.min(s + opts.head_bytes) } else { end };
+                    v.extend(s..end);
+                }
+            }
+        }
+        return v;
+    }
     if opts.head_bytes == 0 {
         return (0..seed.len()).collect();
     }
